@@ -88,7 +88,8 @@ def escape_table(ctx, drv):
 
 def run(ctx):
     ctx.rule = ('texts from: grammar of lines with each field independently valid/invalid; all token sequences up to a '
-                'length bound over an 18-token alphabet; mutations of valid Manifests; full escape-form table. '
+                'length bound over an 18-token alphabet; mutations of valid Manifests; full escape-form table; sampled sequences of the '
+                'line classes of the cleartext-signature framework (dash-escaped armor lines inside the body, junk after them). '
                 'non-trivial = distinct text on which the parser produced at least one entry or an error')
     ctx.assumptions = ['numeric fields containing non-ASCII decimal digits: model abstains, only the exception-class oracle applies']
     ctx.tmp = common.scratch_dir()
@@ -113,6 +114,12 @@ def run(ctx):
             compare_load(ctx, drv, text + '\n', 'stringio', 'tokens')
             n += 1
         ctx.tables[f'token-sequences(len<={maxlen})'] = {'size': n, 'exhaustive': True, 'ok': True}
+        # the cleartext-signature framework around the entries: sampled sequences of its line classes (armor lines, dash-escaped
+        # armor lines inside the body, junk after them, ...): whatever the model rejects must be rejected
+        for i in range(3000 if ctx.tier == 'quick' else 60000):
+            combo, text = gen_text.framework_text(ctx.rng, 3, 12)
+            mode = ctx.rng.choice(['stringio', 'file'])
+            compare_load(ctx, drv, text, mode, 'framework')
         n_mut = 2000 if ctx.tier == 'quick' else 40000
         for i in range(n_mut):
             es = gen_text.rand_entries(ctx.rng)
